@@ -99,11 +99,7 @@ session delivers — `streamLocs s ts`, by `session_terminates` — form an `Out
 (i) all are committed at the responder, (ii) parents are delivered earlier or already held,
 (iii) something new is delivered.
 
-Full statement (not yet proved, see notes/C16.md): for `ts = findNeeded lim s heads have`, on a
-well-formed store whose command locations are all ancestors of a head, `ToSendOK s (anc*(have)) ts`
-holds, and the progress premise holds provided every command the requester holds has a max cut
-not above the highest sampled one and fewer than `SEGMENT_BUFFER_MAX` of the flushed entries
-that the requester holds completely lie at or below the lowest entry it does not. -/
+`fns_outcome` below discharges both premises for `ts = find_needed_segments(..)`. -/
 theorem fns_outcome_partial (s : Store) (cov : Loc → Prop) (A ts : List Loc)
     (hok : ToSendOK s cov ts) (hcov : ∀ l, cov l → l ∈ A)
     (hprog : (∃ l ∈ graphLocs s, l ∉ A) → ∃ l ∈ streamLocs s ts, l ∉ A) :
@@ -115,6 +111,48 @@ theorem fns_outcome_partial (s : Store) (cov : Loc → Prop) (A ts : List Loc)
     · exact Or.inr (hcov p h)
     · left; rw [hsplit]; exact List.mem_append_left _ h
   progress := hprog
+
+/-- **The mechanism realises a session outcome.**  `s` is the responder's store (well formed, every
+command an ancestor-or-self of a head), `commands` the requester's sample, `A` the command locations
+of `s` whose command the requester holds: parents-closed, containing every sampled command the
+responder can locate, and with its highest max cut among them (the requester's frontier fits in the
+sample).  Then the commands delivered by the session for `ts = find_needed_segments(commands)` form
+an `Outcome` — sound, parents-closed relative to `A`, and delivering something `A` lacks whenever
+it lacks anything — unless the `SEGMENT_BUFFER_MAX` buffer is completely filled with entries the
+requester holds entirely (`hbuf`; the wide-frontier situation of notes/C16.md is the case where
+this premise fails on the real code). -/
+theorem fns_outcome {s : Store} (hwf : WF s) {lim : Limits} (hcap : 1 ≤ lim.segmentMax)
+    {heads : List Loc} {commands : List Addr} {ts : List Loc}
+    (hh : ∀ h ∈ heads, s.valid h = true)
+    (hcommitted : ∀ l, s.valid l = true → ∃ h ∈ heads, AncS s l h)
+    (h : findNeeded lim s heads commands = .ok ts)
+    (A : List Loc) (hA : ∀ b ∈ A, ∀ p ∈ s.parents b, p ∈ A)
+    (hsample : ∀ a ∈ commands, ∀ x, getLocation s heads a = .ok (some x) → x ∈ A)
+    (hmax : ∀ l ∈ A, ∃ a ∈ commands, ∃ x, getLocation s heads a = .ok (some x) ∧ l.mc ≤ x.mc)
+    (hbuf : ¬ (ts.length = lim.segmentMax ∧ ∀ l ∈ streamLocs s ts, l ∈ A)) :
+    Outcome s.parents A (graphLocs s) (streamLocs s ts) := by
+  obtain ⟨haves, sts, F, K, hp⟩ := findNeeded_spec hwf hh h
+  have hok := fns_toSendOK_of_parts hwf hp
+  have hhA : ∀ x ∈ haves, x ∈ A := by
+    intro x hx
+    obtain ⟨_, a, ha, hg⟩ := hp.haves_ok x hx
+    exact hsample a ha x hg
+  have hcov : ∀ l, Cov s haves l → l ∈ A := by
+    intro l ⟨x, hx, hanc⟩
+    exact closed_ancS hA hanc (hhA x hx)
+  have hmax' : ∀ l ∈ A, l.mc ≤ headMc haves := by
+    intro l hl
+    obtain ⟨a, ha, x, hg, hle⟩ := hmax l hl
+    have := hp.head_max x (hp.haves_all a ha x hg)
+    omega
+  apply fns_outcome_partial s (Cov s haves) A ts hok hcov
+  intro ⟨l, hl, hlA⟩
+  have hlv : s.valid l = true := by
+    have := (List.mem_filter.mp hl).2
+    simpa using this
+  rcases fns_progress_of_parts hcap hp hh A hA hhA hmax' hcommitted ⟨l, hlv, hlA⟩ with h1 | h2
+  · exact h1
+  · exact absurd h2 hbuf
 
 /-! ## non-vacuity -/
 
@@ -132,5 +170,25 @@ example : Run exPar [0, 1, 2, 3, 4] [0, 1] 2 [0, 1, 2, 3, 4] :=
     (.session (D := [4]) ⟨by decide, by decide, fun _ => ⟨4, by decide, by decide⟩⟩ (.done _))
 
 example : (missing [0, 1] [0, 1, 2, 3, 4]).length = 3 := by decide
+
+/-! ## the design's `D ⊆ needed` is false of the mechanism
+
+A six-command store taken from a real run (harness c17, seed 3, case 30): the sample contains the
+responder's head `28` (location 5:4) itself, yet `find_needed_segments` puts location 5:4 into its
+result and command `28` is sent again.  (The have-cursor has moved past 5:4 when segment 5 is
+visited a second time, below it.)  Harmless for convergence — the requester skips commands it
+holds — but it is why `Outcome` asks for soundness and closure only, not `D ⊆ needed`. -/
+
+def ovStore : Store :=
+  ⟨[{ idx := 1, first := 0, ids := [0], prior := .none, skips := [] },
+    { idx := 3, first := 1, ids := [1], prior := .single ⟨0, 1⟩, skips := [] },
+    { idx := 5, first := 2, ids := [2, 27, 28], prior := .single ⟨1, 3⟩, skips := [] },
+    { idx := 8, first := 3, ids := [41], prior := .single ⟨2, 5⟩, skips := [] }]⟩
+
+example : (match findNeeded Limits.real ovStore [⟨3, 8⟩, ⟨4, 5⟩] [⟨28, 4⟩, ⟨27, 3⟩, ⟨2, 2⟩, ⟨1, 1⟩] with
+    | .ok l => l | .error _ => []) = [⟨3, 8⟩, ⟨4, 5⟩] := by decide
+
+example : (match getLocation ovStore [⟨3, 8⟩, ⟨4, 5⟩] ⟨28, 4⟩ with | .ok r => r | .error _ => none) =
+    some ⟨4, 5⟩ := by decide
 
 end AranyaV.Sync
